@@ -397,13 +397,6 @@ func (g *Gen) instrBinOp(f *Frame, i *ssa.BinOp) {
 		default:
 			unsupp("binop %s on %s", i.Op, srt)
 		}
-		if srt == "Iface" {
-			// a nil interface is any value with tag 0
-			r = fmt.Sprintf("(or (and (= (i_tag %[1]s) 0) (= (i_tag %[2]s) 0)) (= %[1]s %[2]s))", x.S, y.S)
-			if i.Op == token.NEQ {
-				r = not(r)
-			}
-		}
 		if srt == "Slice" {
 			// only comparison with nil is legal
 			other := y
